@@ -101,6 +101,18 @@ def derive(C, ctx, how, rng):
     return new
 
 
+def observe_handle(emit, C, b, h, rec):
+    """Full public observation of a handle (however it was derived and whatever was called on it and on its
+    siblings) against a context built from scratch from the table the model says it holds."""
+    from rec_persist_worker import observe, digest
+    try:
+        o = digest(observe(rec.ctx))
+        f = digest(observe(C.Context(rec.olabels, rec.plabels, rec.table.bools())))
+        emit({'b': b, 'ev': 's.obs', 'h': h, 'out': 'ok', 'obs': o, 'fresh': f})
+    except Exception as exc:
+        emit({'b': b, 'ev': 's.obs', 'h': h, 'out': type(exc).__name__, 'obs': '', 'fresh': '', 'msg': str(exc)[:200]})
+
+
 def fail_calls(rec, lazy):
     c = rec.ctx
     bad = [lambda: c.intension(['<no such object>']), lambda: c.extension(['<no such property>']),
@@ -151,6 +163,8 @@ def run_session(emit, C, prop, hist, b, seed, mode):
                     src = recs[a['h']]
                     recs[a['g']] = clone_rec(src, derive(C, src.ctx, a['how'], rng), cemit, C)
                 elif a['a'] == 'drop':
+                    if mode == 'flags':
+                        observe_handle(emit, C, b, a['h'], recs[a['h']])
                     del recs[a['h']]
                     gc.collect()
         except Exception as exc:
@@ -165,6 +179,9 @@ def run_session(emit, C, prop, hist, b, seed, mode):
             except Exception as exc:
                 flags, out = [], 'flags:' + type(exc).__name__
             emit({'b': b, 'ev': 's.step', 'a': a, 'flags': flags, 'out': out})
+    if mode == 'flags':
+        for h, r in sorted(recs.items()):          # whatever is still alive at the end of the session
+            observe_handle(emit, C, b, h, r)
     return n, m, tables
 
 
